@@ -249,7 +249,37 @@ var c17Prims = map[string]reflect.Type{
 	"f32": reflect.TypeOf(float32(0)), "f64": reflect.TypeOf(float64(0)),
 }
 
+// NAMED struct types (reflect.StructOf types have no name): a struct token equal to one of these is built as the static type.
+// Both contribute the key `server` with a struct value and disjoint children: conf merges them (addOrMergeFields).
+type C17EmbA struct {
+	Server struct {
+		Host string `json:"host"`
+	} `json:"server"`
+	Name string `json:"name"`
+}
+
+type C17EmbB struct {
+	Server struct {
+		Port int `json:"port"`
+	} `json:"SERVER"`
+}
+
+const (
+	c17EmbATok = "{Server:server:-={Host:host:-=s};Name:name:-=s}"
+	c17EmbBTok = "{Server:SERVER:-={Port:port:-=i}}"
+	// unnamed top-level types embedding the two
+	c17MergeTok0 = "{C17EmbA::e=" + c17EmbATok + ";C17EmbB::e=" + c17EmbBTok + "}"
+	c17MergeTok1 = "{C17EmbA::e=" + c17EmbATok + ";C17EmbB::e=" + c17EmbBTok + ";Limit:limit:o=i}"
+)
+
+var c17NamedTypes = map[string]reflect.Type{c17EmbATok: reflect.TypeOf(C17EmbA{}), c17EmbBTok: reflect.TypeOf(C17EmbB{})}
+
 func (t *c17Ty) rtype() reflect.Type {
+	if t.kind == "{" {
+		if nt, ok := c17NamedTypes[t.enc()]; ok {
+			return nt
+		}
+	}
 	switch t.kind {
 	case "*":
 		return reflect.PointerTo(t.elem.rtype())
@@ -1877,6 +1907,31 @@ func c17GenSections(r *verifh.Rng) []verifh.Section {
 			ops = append(ops, again[g.r.Intn(len(again))])
 		}
 		secs = append(secs, verifh.Section{Cfg: "kind=load", Ops: ops})
+	}
+	// two embedded NAMED structs that share a struct-valued key with disjoint children (conf merges the field infos):
+	// every (type, document) is loaded several times in one process - three formats per op, the same op again, the file
+	// API on every extension - and must load alike every time
+	nmg := verifh.Scale(6, 30)
+	for i := 0; i < nmg; i++ {
+		rr := r.Fork()
+		tok := c17MergeTok0
+		if i%2 == 1 {
+			tok = c17MergeTok1
+		}
+		ops := []string{"type " + tok}
+		for q := 0; q < 3; q++ {
+			doc := fmt.Sprintf(`{"%s":{"%s":"%s","%s":%d},"%s":"%s"}`, rr.PickS("server", "Server", "SERVER"),
+				rr.PickS("host", "Host", "HOST"), rr.PickS("a", "node-1", "x1"), rr.PickS("port", "Port", "PORT"), rr.Range(1, 9000),
+				rr.PickS("name", "Name", "NAME"), rr.PickS("alpha", "b", "Zed"))
+			if q == 2 {
+				doc = fmt.Sprintf(`{"server":{"host":"h"},"name":"%s"}`, rr.PickS("alpha", "b")) // port missing: an error every time
+			}
+			ld := fmt.Sprintf("load %d %s -", rr.Intn(16), doc)
+			ops = append(ops, ld, fmt.Sprintf("fload %s 0 %s %d %s", rr.PickS(".json", ".yaml", ".toml", ".YML"), rr.PickS("Load", "LoadConfig", "MustLoad"), rr.Intn(16), doc),
+				fmt.Sprintf("fload %s 0 Bytes %d %s", rr.PickS(".json", ".yaml", ".toml"), rr.Intn(16), doc), ld)
+		}
+		ops = append(ops, ops[1], ops[2])
+		secs = append(secs, verifh.Section{Cfg: "kind=merge", Ops: ops})
 	}
 	// the config center over static types: every white-space variant x every block-scalar style x the three formats
 	ncc := verifh.Scale(12, 60)
